@@ -110,6 +110,8 @@ class Builder(object):
             if indent:
                 data = b''.join(b' ' * indent + l
                                 for l in split_keep(data, nl))
+        if kind == 'diff' and not own and r.random() < .4:
+            opts['type'] = r.choice(['text', 'binary'])
         if kind == 'preamble' and r.random() < .3:
             opts['mimetype'] = r.choice(['text/plain', 'text/markdown'])
         opts['length'] = len(data)
